@@ -84,6 +84,19 @@ def scenarios(tier):
         sessions = [S(0, 2, True, False, maxNormalOrders=2, events=["PL"]), S(1, 2, True, True, maxNormalOrders=2)]
         sc[name] = Scenario(name, mkcfg(sessions, markets=markets, agents=ags, events=ev),
                             meta=dict(limit_rule=dict(targets=targets, r=0.25, enabled=True)))
+    # the rule's entry inherits over two extends levels; rate and targets differ between parent and grandparent
+    for leaf_keys in ((), ("triggerChangeRate",)):
+        name = "rule_inherits_over_two_levels:%s" % ("leaf_sets_rate" if leaf_keys else "leaf_sets_nothing")
+        menu = menus(0.25, 1.0)
+        markets = [dict(name="M%d" % i, tick=1.0) for i in range(3)]
+        ags = [dict(name="A0", menu=menu, program=[1, 14, 5, 27], markets=["M0", "M1", "M2"]),
+               dict(name="A1", menu=menu, program=[2, 15, 6, 28], markets=["M0", "M1", "M2"])]
+        ev = {"PLG": {"class": "PriceLimitRule", "targetMarkets": ["M1", "M2"], "triggerChangeRate": 0.5},
+              "PLP": {"extends": "PLG", "targetMarkets": ["M0"], "triggerChangeRate": 0.125},
+              "PL": dict({"extends": "PLP"}, **({"triggerChangeRate": 0.25} if leaf_keys else {}))}
+        sessions = [S(0, 2, True, False, maxNormalOrders=2, events=["PL"]), S(1, 2, True, True, maxNormalOrders=2)]
+        sc[name] = Scenario(name, mkcfg(sessions, markets=markets, agents=ags, events=ev),
+                            meta=dict(limit_rule=dict(targets=["M0"], r=0.25 if leaf_keys else 0.125, enabled=True)))
     # two rules in one run: different target sets and different rates
     for (ta, ra), (tb, rb) in (((["M0"], 0.125), (["M1"], 0.25)), ((["M1"], 0.25), (["M0"], 0.125)), ((["M0", "M1"], 0.25), (["M2"], 0.125))):
         name = "two_rules:%s@%s+%s@%s" % ("+".join(ta), ra, "+".join(tb), rb)
